@@ -428,6 +428,28 @@ class Sym:
                 return r
         return ("apply", f, v)
 
+    def callable_here(self, f):
+        """f is a closure whose body we have, or a hand-written /repo function that may be expanded"""
+        if f[0] == "closure" and f[1] in self.closures:
+            return True
+        if f[0] == "fn" and not (len(f) > 2 and f[2] == "ctor"):
+            g = self.body_for(f[1])
+            return g is not None and (g.get("pv") or "user") == "user" and (self.inline is None or self.inline(f[1], None) is not False)
+        return False
+
+    def call_value(self, f, args, st, n):
+        """apply a function value on the current path -> list of (state, term)"""
+        if f[0] == "closure":
+            return self.inline_closure(f, args, st)
+        return self.do_call(n, f[1], None, list(args), st)
+
+    def drop_creation(self, f, st):
+        """a closure that is called here (its body evaluated in place) is no longer an event of its own"""
+        if f[0] == "closure" and f[1] in self.closures:
+            cnode = self.closures[f[1]][0]
+            if any(e.kind == "closure" and e.node is cnode for e in st.effects):
+                st.effects = tuple(e for e in st.effects if not (e.kind == "closure" and e.node is cnode))
+
     def inline_closure(self, f, args, st):
         """evaluate a closure's body on the current path (effects included) -> list of (state, term)"""
         node, _env, cap_frames = self.closures[f[1]]
@@ -467,7 +489,8 @@ class Sym:
         if not (is_res or is_opt or is_bool):
             return None
         clos = [a for a in args[1:] if a[0] == "closure" and a[1] in self.closures]
-        if not clos or self.applying > 6:
+        fns = [a for a in args[1:] if a[0] == "fn" and self.callable_here(a)]
+        if not (clos or fns) or self.applying > 6:
             return None
         if name not in ("and_then", "map", "map_err", "or_else", "unwrap_or_else", "map_or", "map_or_else", "ok_or_else", "filter", "inspect", "inspect_err", "then", "is_some_and", "is_ok_and"):
             return None
@@ -490,7 +513,7 @@ class Sym:
                     return None
                 for s1, b in self.truth(recv, st):
                     if b:
-                        out.extend((s2, None if s2.done is not None else ("ctor", SOME, (t,))) for s2, t in self.inline_closure(args[1], [], s1))
+                        out.extend((s2, None if s2.done is not None else ("ctor", SOME, (t,))) for s2, t in self.call_value(args[1], [], s1, n))
                     else:
                         out.append((s1, ("ctor", NONE, ())))
                 return out
@@ -502,8 +525,8 @@ class Sym:
                 same = ("ctor", good, (v,)) if isgood else (("ctor", ERR, (e,)) if is_res else ("ctor", NONE, ()))
 
                 def run(f, a, wrap=None, s=s1):
-                    if f[0] == "closure" and f[1] in self.closures:
-                        return [(s2, None if s2.done is not None else (wrap(t) if wrap else t)) for s2, t in self.inline_closure(f, a, s)]
+                    if self.callable_here(f):
+                        return [(s2, None if s2.done is not None else (wrap(t) if wrap else t)) for s2, t in self.call_value(f, a, s, n)]
                     t = self.apply(f, a[0], self.site(n, s)) if a else ("call", "<fn>", (f,), self.site(n, s))
                     return [(s, wrap(t) if wrap else t)]
 
@@ -1254,6 +1277,7 @@ class Sym:
                 elif ft[0] == "closure" and ft[1] in self.closures and self.applying <= 6:
                     # a closure value called directly (`keep(x)` for a closure parameter of an expanded helper)
                     self.applying += 1
+                    self.drop_creation(ft, s)
                     try:
                         out.extend(self.inline_closure(ft, list(ts), s))
                     finally:
@@ -1308,6 +1332,55 @@ class Sym:
                     for s2, g2 in self.test_variant(inner, OK, s1):
                         out.append((s2, ("ctor", OK, (("ctor", SOME, (self.proj(inner, OK, 0),)),)) if g2 else ("ctor", ERR, (self.proj(inner, ERR, 0),))))
             return out
+        if (trait_callee or callee) in ("core::iter::traits::iterator::Iterator::try_for_each", "core::iter::traits::iterator::Iterator::for_each") and len(args) == 2 \
+                and self.callable_here(args[1]) and self.applying <= 6:
+            it = args[0]
+            mapped = []
+            while it[0] == "call" and it[2] and it[1].split("::")[-1] in ("into_iter", "iter", "by_ref", "copied", "cloned", "as_slice", "map"):
+                if it[1].split("::")[-1] == "map":
+                    if len(it[2]) != 2 or not self.callable_here(it[2][1]):
+                        break
+                    mapped.insert(0, it[2][1])
+                elif len(it[2]) != 1:
+                    break
+                it = it[2][0]
+            if it[0] == "array" and len(it[1]) <= 32:
+                # `[a, b, c].iter().try_for_each(f)`: f(a)?; f(b)?; f(c)?; Ok(())
+                is_try = (trait_callee or callee).endswith("try_for_each")
+                self.applying += 1
+                self.drop_creation(args[1], st)
+                for m in mapped:
+                    self.drop_creation(m, st)
+                try:
+                    live, done = [st], []
+                    for elem in it[1]:
+                        nxt = []
+                        for s0 in live:
+                            vals = [(s0, elem)]
+                            for m in mapped:
+                                vals = [(s2, t) for s1, v in vals if s1.done is None for s2, t in self.call_value(m, [v], s1, n)] + [(s1, None) for s1, v in vals if s1.done is not None]
+                            for s1, v in vals:
+                                if s1.done is not None:
+                                    done.append((s1, None))
+                                    continue
+                                for s2, t in self.call_value(args[1], [v], s1, n):
+                                    if s2.done is not None:
+                                        done.append((s2, None))
+                                    elif not is_try:
+                                        nxt.append(s2)
+                                    else:
+                                        for s3, ok in self.test_variant(t, OK, s2):
+                                            if ok:
+                                                nxt.append(s3)
+                                            else:
+                                                done.append((s3, ("ctor", ERR, (self.proj(t, ERR, 0),))))
+                        live = nxt
+                        if len(live) + len(done) > MAX_PATHS:
+                            raise TooManyPaths()
+                    unit = ("tuple", ())
+                    return done + [(s1, ("ctor", OK, (unit,)) if is_try else unit) for s1 in live]
+                finally:
+                    self.applying -= 1
         if (trait_callee or callee) == "core::iter::traits::iterator::Iterator::next" and len(args) == 1 and self.applying <= 6:
             it = args[0]
             while it[0] == "call" and len(it[2]) == 1 and it[1].split("::")[-1] in ("into_iter", "by_ref", "borrow_mut", "deref_mut"):
